@@ -36,6 +36,15 @@ let handle (toks: string list) : string =
       id ^ " " ^ hex_of_bytes (encode53 (n_of_int (int_of_string seed)) (hexarg hex))
   | "dec53" :: id :: seed :: verify :: hex :: [] ->
       id ^ " " ^ show_outcome (decode53 (n_of_int (int_of_string seed)) (n_of_int (int_of_string verify)) (hexarg hex))
+  | "enc35" :: id :: hex :: [] ->
+      id ^ " " ^ hex_of_bytes (sony_encode (hexarg hex))
+  | "dec35" :: id :: hex :: [] ->
+      id ^ " " ^ show_outcome (sony_decode (nat_of_int 174) (hexarg hex))
+  | "trk35" :: id :: sides :: trk :: rest ->
+      let rec pairs l = match l with
+        | s :: h :: r -> (n_of_int (int_of_string s), hexarg h) :: pairs r
+        | _ -> [] in
+      id ^ " " ^ hex_of_bytes (run_track35 (n_of_int (int_of_string sides)) (n_of_int (int_of_string trk)) (pairs rest))
   | "trk" :: id :: is13 :: sync :: fill :: buflen :: vol :: trk :: rest ->
       let rec pairs l = match l with
         | s :: h :: r -> (n_of_int (int_of_string s), hexarg h) :: pairs r
